@@ -1,7 +1,7 @@
 /* Set containers on the same trees: ikos::patricia_tree_set<K> (patricia_trees.hpp) and ikos::discrete_domain<K>
  * (discrete_domains.hpp) — second sentence of C19, the members that do not go through binary_op<K,bool>
  * (subset, superset, equality, membership, element removal, emptiness, size, top/bottom flags).
- * Union / intersection / insertion are NOT covered (see force.cpp: i24). */
+ * Union / intersection / insertion and the operation objects union_op / intersection_op: contracts_setops.c. */
 #define PBN(x) _ZN4ikos13patricia_treeI1KbSt8equal_toIbEE##x
 #define PBK(x) _ZNK4ikos13patricia_treeI1KbSt8equal_toIbEE##x
 #define PSN(x) _ZN4ikos17patricia_tree_setI1KE##x
